@@ -90,6 +90,22 @@ mod native {
                 assert_eq!(m.piece(i), &h.digest().bytes(), "SHA-1 of chunk {} of a re-created {}-byte file", i, len);
             }
         }
+        // a path that is a symbolic link: the torrent describes the content that is read through it
+        {
+            let data: Vec<u8> = (0..300_000usize).map(|i| ((i * 17 + 5) % 251) as u8).collect();
+            std::fs::write(dir.join("target.bin"), &data).unwrap();
+            std::os::unix::fs::symlink(dir.join("target.bin"), dir.join("link.bin")).unwrap();
+            Metainfo::create_file(&dir.join("link.bin"), &tracker).expect("create_file through a symbolic link");
+            let m = Metainfo::from_file(Path::new("link.bin.torrent")).unwrap_or_else(|e| panic!("the torrent created through a symbolic link does not parse back: {:?}", e));
+            assert_eq!(m.name, "link.bin", "name, symbolic link");
+            assert_eq!(m.total_length(), data.len() as u64, "length of a file reached through a symbolic link");
+            assert_eq!(m.pieces_num(), (data.len() + l - 1) / l, "number of pieces, symbolic link");
+            for (i, chunk) in data.chunks(l).enumerate() {
+                let mut h = sha1_smol::Sha1::new();
+                h.update(chunk);
+                assert_eq!(m.piece(i), &h.digest().bytes(), "SHA-1 of chunk {} of a file reached through a symbolic link", i);
+            }
+        }
         std::env::set_current_dir("/").unwrap();
         let _ = std::fs::remove_dir_all(&dir);
     }
@@ -171,6 +187,47 @@ mod native {
             }
         }
         assert!(docs == 16 + 64);
+    }
+
+    // C17 "parsing any byte string as metainfo terminates without panicking": BOUNDED -- every prefix, every single-byte deletion and
+    // every single-byte substitution (by 0, '0', '4', 'e', 'i', ':', 0xFF) of two valid torrents (single-file, multi-file), plus
+    // those torrents behind / before another bencoded value and with the length of a key written with a leading zero
+    // ("04:info": the raw search for the info span and the decoder may disagree about such a document).
+    #[test]
+    fn native_c17_from_bencode_never_panics_on_variants() {
+        let mut single = b"d8:announce3:url4:infod6:lengthi5e4:name1:n12:piece lengthi4e6:pieces40:".to_vec();
+        single.extend(std::iter::repeat(9u8).take(40)); single.extend_from_slice(b"ee");
+        let mut multi = b"d8:announce3:url4:infod5:filesld6:lengthi3e4:path1:aed6:lengthi2e4:path1:bee4:name1:n12:piece lengthi4e6:pieces40:".to_vec();
+        multi.extend(std::iter::repeat(9u8).take(40)); multi.extend_from_slice(b"ee");
+        let mut docs: Vec<Vec<u8>> = vec![];
+        for base in [&single, &multi] {
+            for k in 0..=base.len() { docs.push(base[..k].to_vec()); }
+            for k in 0..base.len() { let mut d = (*base).clone(); d.remove(k); docs.push(d); }
+            for k in 0..base.len() { for b in [0u8, b'0', b'4', b'e', b'i', b':', 0xFF] { let mut d = (*base).clone(); d[k] = b; docs.push(d); } }
+            for pre in [&b"le"[..], b"i0e", b"de", b"0:"] { let mut d = pre.to_vec(); d.extend_from_slice(base); docs.push(d); let mut e = (*base).clone(); e.extend_from_slice(pre); docs.push(e); }
+            let text = String::from_utf8_lossy(base).into_owned();
+            for (from, to) in [("4:info", "04:info"), ("8:announce", "08:announce"), ("6:pieces", "06:pieces"), ("4:name", "04:name"), ("4:info", "4:Info")] {
+                if let Some(pos) = base.windows(from.len()).position(|w| w == from.as_bytes()) {
+                    let mut d = base[..pos].to_vec(); d.extend_from_slice(to.as_bytes()); d.extend_from_slice(&base[pos + from.len()..]); docs.push(d);
+                }
+            }
+            let _ = text;
+        }
+        let mut accepted = 0;
+        for d in docs.iter() {
+            let r = std::panic::catch_unwind(|| Metainfo::from_bencode(d));
+            match r {
+                Err(_) => panic!("from_bencode PANICKED on {:?}", String::from_utf8_lossy(d)),
+                Ok(Ok(m)) => {
+                    accepted += 1;
+                    // whatever was accepted is safe to use
+                    let ok = std::panic::catch_unwind(|| { let _ = m.total_length(); for i in 0..m.pieces_num() { let _ = (m.piece(i), m.piece_length(i)); } let _ = m.file_piece_ranges(); });
+                    assert!(ok.is_ok(), "an accessor PANICKED on the accepted document {:?}", String::from_utf8_lossy(d));
+                }
+                Ok(Err(_)) => (),
+            }
+        }
+        assert!(docs.len() > 1500 && accepted >= 2, "{} documents, {} accepted", docs.len(), accepted);
     }
 
     // C17 "parsing any byte string as metainfo terminates without panicking" / faithful numbers: documents whose length or piece
